@@ -259,7 +259,7 @@ func (f *SexpField) SexpString(ps *PrintState) string {
 }
 
 func StructBuilder(env *Zlisp, name string,
-	args []Sexp) (Sexp, error) {
+	args []Sexp) (res Sexp, err error) {
 
 	n := len(args)
 	if n < 1 {
@@ -289,6 +289,34 @@ func StructBuilder(env *Zlisp, name string,
 	//Q("good: have struct name '%v'", symN)
 
 	structName := symN.name
+
+	// The name is bound to an empty definition below, before the
+	// fields are evaluated (so that a struct can refer to itself).
+	// If the declaration then fails, put back what the name meant
+	// before: a failed declaration must not destroy the previous
+	// definition, nor leave the empty one behind.
+	prevType := GoStructRegistry.Lookup(structName)
+	prevBound, hadBinding := env.linearstack.symbolInTopScope(symN)
+	declared := false
+	defer func() {
+		if declared {
+			return
+		}
+		// (not found: the declaration failed before it bound the name)
+		env.linearstack.DeleteSymbolFromTopOfStackScope(symN)
+		if hadBinding {
+			if berr := env.LexicalBindSymbol(symN, prevBound); berr != nil {
+				err = fmt.Errorf("%v (and the previous binding of '%s' "+
+					"could not be put back: %v)", err, structName, berr)
+			}
+		}
+		if prevType != nil {
+			GoStructRegistry.RegisterUserdef(prevType, false, structName)
+		} else {
+			delete(GoStructRegistry.Registry, structName)
+			delete(GoStructRegistry.Userdef, structName)
+		}
+	}()
 
 	{
 		// begin enable recursion -- add ourselves to the env early, then
@@ -382,7 +410,7 @@ func StructBuilder(env *Zlisp, name string,
 	//Q("good: registered new userdefined struct '%s'", structName)
 
 	// replace our recursive-reference-enabling symbol with the real one.
-	err := env.linearstack.DeleteSymbolFromTopOfStackScope(symN)
+	err = env.linearstack.DeleteSymbolFromTopOfStackScope(symN)
 	if err != nil {
 		return SexpNull, fmt.Errorf("internal error: should have already had symbol '%s' "+
 			"bound, but DeleteSymbolFromTopOfStackScope returned error: '%v'",
@@ -394,6 +422,7 @@ func StructBuilder(env *Zlisp, name string,
 			structName, err)
 	}
 	//Q("good: bound symbol '%s' to RegisteredType '%s'", symN.SexpString(nil), rt.SexpString(nil))
+	declared = true
 	return rt, nil
 }
 
